@@ -176,6 +176,9 @@ def run_isect(c):
             got.append(a[k] if coll else a)
         Sn = np.array([[float(v) for v in row] for row in S])
         Sn = Sn / np.max(np.abs(Sn))
+        valid = [bool(np.all(np.isfinite(g)) and np.max(np.abs(g)) > 1e-12) for g in got]
+        if not ck.check(all(valid), site + ":returned-point-is-zero-or-not-finite", [g.tolist() for g in got]):
+            continue
         for g in got:
             gn = C.pnorm(g)
             ck.check(abs(gn @ Sn @ gn) < 1e-6, site + ":point-on-quadric", (g.tolist(),))
